@@ -73,8 +73,25 @@ def oracle(ctx, n, maxdepth=3):
     return cnt, srcs
 
 
+def replay_known(ctx):
+    import mistune
+    from mistune.renderers.markdown import MarkdownRenderer
+    ast = mistune.create_markdown(renderer=None)
+    fmt = mistune.create_markdown(renderer=MarkdownRenderer())
+    for k in ctx.known:
+        ex = k.get("example") or {}
+        if "doc" not in ex:
+            continue
+        out1 = fmt(ex["doc"])
+        if strip_ref(docgen.normalise(ast(out1))) != strip_ref(docgen.normalise(ast(ex["doc"]))):
+            ctx.fail(k["signature"], "stored example of a known finding: %r is reformatted to %r, which parses differently" % (ex["doc"], out1), {"doc": ex["doc"], "reformatted": out1})
+        else:
+            ctx.notes.append("a stored known-finding example no longer fails: %r" % ex["doc"])
+
+
 def run(ctx):
     ctx.broken += common.proof_stage(ctx, THEOREMS)
+    replay_known(ctx)
     n, srcs = oracle(ctx, 2000 if ctx.quick() else 30000, 3 if ctx.quick() else 4)
     common.model_tie(ctx, srcs, "core", "doc", limit=(600 if ctx.quick() else 6000))
     if ctx.broken and not ctx.failures:
